@@ -1707,7 +1707,17 @@ def b_len(x):
         if not x.shape:
             raise TypeError('len() of unsized object')
         return x.shape[0]
+    from .loops import SList
+    if isinstance(x, SList):
+        return cdim(x.length)
     return len(x)
+
+
+def b_list(x=()):
+    from .loops import SList
+    if isinstance(x, SList):
+        return SList(x.length, x.fn)
+    return list(x)
 
 
 def b_int(x=0, *a):
@@ -1791,7 +1801,7 @@ def b_sum(it, start=0):
 
 BUILTIN_PATCH = {
     'isinstance': b_isinstance, 'len': b_len, 'int': b_int, 'float': b_float, 'max': b_max, 'min': b_min,
-    'round': b_round, 'range': b_range, 'divmod': b_divmod, 'sum': b_sum, 'abs': b_abs,
+    'round': b_round, 'range': b_range, 'divmod': b_divmod, 'sum': b_sum, 'abs': b_abs, 'list': b_list,
 }
 
 
